@@ -269,6 +269,40 @@ theorem iter_script_clauses (cmp : K → K → Int) (hs : StrictWeak cmp) (m : M
   refine ⟨hrel, fun v hv' e he => ⟨(c1 v hv' e he).1, (c1 v hv' e he).2.1, (c1 v hv' e he).2.2.1⟩,
     ⟨c2, outAll_pairwise hs fwd _ _ hrel (by rw [c2']; exact c2)⟩, c3, outAll_sticky _ _ hrel c3⟩
 
+/-- **"No key that stays in the collection from the iterator's creation until the iterator has moved past it is
+skipped", along a whole script** (audit C02-F5). Create iterator `j` on a map that contains the entry `x` inside both
+bounds, then let any script follow (mutations of any keys, other iterators, `Next` calls on `j`; slot `j` not
+re-created) during which `x` is in the map whenever `j` is asked (`sviews`: the contents at each of those moments).
+Then `j`'s answers are entries strictly before `x` (in its direction) until it yields `x` itself — it never reports
+exhaustion and never yields an entry beyond `x` first; the model's answers are those, call by call (`OutAll`). The same
+holds from any later state in which the iterator still owes `x` (`sviews_no_skip`), in particular — "a key inserted
+beyond the next key the iterator yields, and not removed again, is yielded too" — from the moment `Next` yields `y`
+for every `x` present then and beyond `y` (`iter_sees_inserted_beyond_next`). -/
+theorem iter_script_no_skip (cmp : K → K → Int) (hs : StrictWeak cmp) (m : MSt K V) (s : SSt K V) (h : Sim cmp m s)
+    (j : Nat) (fwd : Bool) (lo hi : Bound K) (hlo : lo.kind ≠ none) (hhi : hi.kind ≠ none)
+    (sts : List (Step K V)) (hno : NoMk j sts) (x : K × V) (hx : x ∈ s.L)
+    (hnear : nearFn cmp fwd lo hi x.1 = true) (hfar : keepFn cmp (stopOf fwd lo hi) x.1 = true)
+    (hpers : ∀ v ∈ sviews cmp j s (.mk j fwd lo hi :: sts), x ∈ v.1) :
+    ∃ m' os, mrun cmp m (.mk j fwd lo hi :: sts) = some (m', os) ∧
+      let zs := (sviews cmp j s (.mk j fwd lo hi :: sts)).map (·.2)
+      OutAll cmp (yieldsOf j (.mk j fwd lo hi :: sts) os) zs ∧
+      ((∃ pre post, zs = pre ++ some x :: post ∧ ∀ y ∈ pre, ∃ e, y = some e ∧ dcmp cmp fwd e.1 x.1 < 0) ∨
+        (∀ y ∈ zs, ∃ e, y = some e ∧ dcmp cmp fwd e.1 x.1 < 0)) := by
+  obtain ⟨m', os, h1, _, h3⟩ := iter_refines_resume cmp hs (.mk j fwd lo hi :: sts) m s h
+  refine ⟨m', os, h1, ?_⟩
+  have hz : ¬ (lo.kind = none ∨ hi.kind = none) := fun hz => hz.elim hlo hhi
+  have hL : Sorted cmp s.L := by rw [h.list]; exact (inv_facts h.inv).choose_spec.2.2
+  have hrel := yieldsOf_rel (cmp := cmp) j (.mk j fwd lo hi :: sts) os _ h3
+  rw [← sviews_yields] at hrel
+  have hv : sviews cmp j s (.mk j fwd lo hi :: sts) =
+      sviews cmp j { s with its := setSlot s.its j (smk cmp s.L fwd lo hi) } sts := by
+    simp [sviews, sstep, hz]
+  refine ⟨hrel, ?_⟩
+  rw [hv] at hpers ⊢
+  exact sviews_no_skip hs j fwd (stopOf fwd lo hi) x hfar (keep_mono hs fwd lo hi) sts
+    { s with its := setSlot s.its j (smk cmp s.L fwd lo hi) } (smk cmp s.L fwd lo hi) hL (by simp [setSlot]) rfl rfl hno
+    (smk_owes hs hL fwd lo hi hx hnear).1 hpers
+
 /-- non-vacuity of the clause theorems: a forward iterator over `[(1,10),(3,30)]` from `Included 1`. After it
 yielded `1` it is parked on `3`: a key `2` inserted now (behind the parked key) is skipped — which the property
 allows —, a key `4` inserted beyond the next yield is yielded. -/
